@@ -4,10 +4,15 @@
 use std::cell::RefCell;
 use std::collections::HashMap;
 use std::convert::From;
+#[cfg(not(prometheus_verif))]
 use std::sync::{
     atomic::{AtomicU64 as StdAtomicU64, Ordering},
     Arc, Mutex,
 };
+#[cfg(prometheus_verif)]
+use crate::verif_sync::{AtomicU64 as StdAtomicU64, Mutex};
+#[cfg(prometheus_verif)]
+use std::sync::{atomic::Ordering, Arc};
 use std::time::{Duration, Instant as StdInstant};
 
 use crate::atomic64::{Atomic, AtomicF64, AtomicU64};
@@ -1199,6 +1204,23 @@ impl LocalMetric for LocalHistogramVec {
 impl Clone for LocalHistogramVec {
     fn clone(&self) -> LocalHistogramVec {
         LocalHistogramVec::new(self.vec.clone())
+    }
+}
+
+#[cfg(prometheus_verif)]
+impl Histogram {
+    /// Addresses under which the verification shim reports this histogram's words.
+    pub fn verif_layout(&self) -> crate::verif_sync::HistogramLayout {
+        let shard = |s: &Shard| crate::verif_sync::ShardLayout {
+            count: s.count.verif_addr(),
+            sum: s.sum.verif_addr(),
+            buckets: s.buckets.iter().map(|b| b.verif_addr()).collect(),
+        };
+        crate::verif_sync::HistogramLayout {
+            shard_and_count: &self.core.shard_and_count.inner as *const StdAtomicU64 as usize,
+            collect_lock: &self.core.collect_lock as *const Mutex<()> as usize,
+            shards: [shard(&self.core.shards[0]), shard(&self.core.shards[1])],
+        }
     }
 }
 
